@@ -497,7 +497,9 @@ def run_shard(spec, emit):
             engine_budget -= 1
             via_cli = rng.random() < 0.4
             result = engine_run(doc, includes, excludes, seed + 1, via_cli)
-            if result is not None and via_cli and result.exit_code == 2 and not result.events:
+            rejected = result is not None and via_cli and not result.events and (result.exit_code == 2 or (result.harness_error or "").startswith("IncorrectUsage"))
+            if rejected:
+                # the command line refused the combination (usage error, or the same filter given twice: `post` and `POST`)
                 emit.count("cli_rejected_filter_combination")
             elif result is not None and not result.hung:
                 viols, n = judge_run(doc, ref[0], result, via_cli)
